@@ -77,6 +77,7 @@ T_C18_Init == [][C18_Init]_tv
 T_UpgradeKeepsState == [][UpgradeKeepsState]_tv
 T_C11_HeldWriters == [][C11_HeldWriters]_tv
 T_C11_BadPacketReleasesNothing == [][C11_BadPacketReleasesNothing]_tv
+T_C12_FailureMustSettle == [][C12_FailureMustSettle]_tv
 T_C12_SuccessAckPaid == [][C12_SuccessAckPaid]_tv
 T_C12_ErrorAckNoChange == [][C12_ErrorAckNoChange]_tv
 T_C12_ReceiveNeverAborts == [][C12_ReceiveNeverAborts]_tv
